@@ -1,24 +1,10 @@
-"""Per-property configuration for check.py (harness packages, trusted base, assumptions)."""
+"""Per-property configuration for check.py: one JSON file per property under props/."""
+import json, os, glob
 
-FLOAT_NOTE = "IEEE-754 binary64: Lean runtime Float and Go float64 agree bit-for-bit on * / ceil round (driver instantiates the model's float parameter with Float; theorems assume only the stated algebraic facts)"
-
-PROPS = {
-    "C14": {
-        "facts": True,
-        "level_text": "Theorems (Lean kernel) over the executable model: container values are the standard conversion with the literals of the statement, pod >= every container for shares/quota/memory with -1 as top, unlimited propagates, non-BE untouched; all container lists, all amounts. Model tied to the hook code by 4k/120k-case differential runs and to the constants by regenerated tie lemmas.",
-        "level_note": "Trusted: Lean kernel; hand model ~ Go code only by sampling (correspondence); float64 ceil(q/ratio) enters as hypotheses ScaleOK tested per input; Quantity/JSON glue exercised not modelled; perf_group stub.",
-        "harness": [{"name": "hook", "pkg": "pkg/koordlet/runtimehooks/hooks/batchresource", "test": "TestVerifC14"}],
-        "trusted_base": [
-            "perf_group cgo file replaced by a pure-Go stub for the harness build (libpfm headers absent)",
-            "resource.Quantity.Value(), encoding/json and the protocol request builders are exercised, not modelled",
-            FLOAT_NOTE,
-        ],
-        "assumptions": [
-            "int64 products m*1024 and m*100000 do not wrap: generated amounts < 2^41 (Go) / unbounded Int (Lean)",
-            "ScaleOK (0 < f q <= q, monotone) for the float64 ceil(q/ratio) when ratio > 1; checked on every generated input",
-        ],
-    },
-}
+_D = os.path.dirname(os.path.abspath(__file__))
+PROPS = {}
+for _f in sorted(glob.glob(os.path.join(_D, "props", "C*.json"))):
+    PROPS[os.path.basename(_f)[:-5]] = json.load(open(_f))
 
 # properties deliberately not claimed, with the reason (kept current by hand)
 NOT_APPLICABLE = {}
